@@ -38,6 +38,41 @@ func ghost_tbl[K comparable, V any](m *hashmap.Map[K, V, node.Node[K, V]], k K) 
 	panic("ghost")
 }
 
+// the in-flight load table
+func ghost_calls[K comparable, V any](m *hashmap.Map[K, V, *call[K, V]], k K) *call[K, V] { panic("ghost") }
+
+// linearization point of the last atomic table access: entry seen, entry installed, number of accesses
+func ghost_lpCur[K comparable, V any](m *hashmap.Map[K, V, node.Node[K, V]]) node.Node[K, V] { panic("ghost") }
+func ghost_lpNew[K comparable, V any](m *hashmap.Map[K, V, node.Node[K, V]]) node.Node[K, V] { panic("ghost") }
+func ghost_lpCount[K comparable, V any](m *hashmap.Map[K, V, node.Node[K, V]]) int           { panic("ghost") }
+
+// deletion-event log: number of handler invocations and the fields of the last event
+func ghost_calls_onAtomicDeletion() int                     { panic("ghost") }
+func ghost_arg_onAtomicDeletion_0[K comparable]() K         { panic("ghost") }
+func ghost_arg_onAtomicDeletion_1[V any]() V                { panic("ghost") }
+func ghost_arg_onAtomicDeletion_2() DeletionCause           { panic("ghost") }
+func ghost_calls_onDeletion() int                           { panic("ghost") }
+func ghost_arg_onDeletion_0[K comparable]() K               { panic("ghost") }
+func ghost_arg_onDeletion_1[V any]() V                      { panic("ghost") }
+func ghost_arg_onDeletion_2() DeletionCause                 { panic("ghost") }
+
+// log of calls of the policy notification entry points
+func ghost_calls_afterWrite() int                                           { panic("ghost") }
+func ghost_last_afterWrite_n[K comparable, V any]() node.Node[K, V]         { panic("ghost") }
+func ghost_last_afterWrite_old[K comparable, V any]() node.Node[K, V]       { panic("ghost") }
+func ghost_calls_afterDelete() int                                          { panic("ghost") }
+func ghost_last_afterDelete_deleted[K comparable, V any]() node.Node[K, V]  { panic("ghost") }
+func ghost_calls_afterRead() int                                            { panic("ghost") }
+
+func ghost_calls_mappingFunc() int { panic("ghost") }
+
+// remapping function of Compute*: arguments it was called with and what it returned
+func ghost_calls_remappingFunc() int            { panic("ghost") }
+func ghost_arg_remappingFunc_0[V any]() V       { panic("ghost") }
+func ghost_arg_remappingFunc_1() bool           { panic("ghost") }
+func ghost_ret_remappingFunc_0[V any]() V       { panic("ghost") }
+func ghost_ret_remappingFunc_1() ComputeOp      { panic("ghost") }
+
 // last clock reading
 func ghost_now() int64 { panic("ghost") }
 
@@ -96,6 +131,39 @@ func pickU64(c bool, a, b uint64) uint64 {
 		return a
 	}
 	return b
+}
+
+func pickInt(c bool, a, b int) int {
+	if c {
+		return a
+	}
+	return b
+}
+
+func pickNode[K comparable, V any](c bool, a, b node.Node[K, V]) node.Node[K, V] {
+	if c {
+		return a
+	}
+	return b
+}
+
+func pickV[V any](c bool, a, b V) V {
+	if c {
+		return a
+	}
+	return b
+}
+
+func pickCause(c bool, a, b DeletionCause) DeletionCause {
+	if c {
+		return a
+	}
+	return b
+}
+
+// liveAt: an entry with deadline exp is visible at clock value now.
+func liveAt[K comparable, V any](n node.Node[K, V], exp int64, now int64) bool {
+	return n != nil && !(ghost_hasExp() && exp <= now)
 }
 
 func pickI64(c bool, a, b int64) int64 {
@@ -198,7 +266,13 @@ func estOf[K comparable](s *sketch[K], k K) uint64 {
 // Maintenance entry points (footprints; the bodies are verified in the C04/C05/C06 blocks below)
 // ---------------------------------------------------------------------------------------------
 
+//@ macro RHOOKS = ghost_calls_RefreshAfterCreate(), ghost_ret_RefreshAfterCreate(), ghost_calls_RefreshAfterUpdate(), ghost_ret_RefreshAfterUpdate(), ghost_calls_RefreshAfterReload(), ghost_ret_RefreshAfterReload(), ghost_calls_RefreshAfterReloadFailure(), ghost_ret_RefreshAfterReloadFailure()
 //@ macro EVLOG = ghost_evictions(), ghost_evictionWeight()
+//@ macro ATOMICEV = ghost_calls_onAtomicDeletion()
+//@ macro ONDEL = ghost_calls_onDeletion()
+//@ macro WHOOKS = ghost_calls_ExpireAfterCreate(), ghost_ret_ExpireAfterCreate(), ghost_calls_ExpireAfterUpdate(), ghost_ret_ExpireAfterUpdate(), ghost_calls_weigher(), ghost_ret_weigher(), $RHOOKS
+
+//@ immutable cache.nodeManager, cache.hashmap, cache.evictionPolicy, cache.expirationPolicy, cache.stats, cache.clock, cache.singleflight, cache.withTime, cache.withExpiration, cache.withRefresh, cache.withEviction, cache.isWeighted, cache.withMaintenance, cache.withStats, cache.onDeletion, cache.onAtomicDeletion, cache.expiryCalculator, cache.refreshCalculator, cache.weigher, cache.executor, cache.readBuffer, cache.writeBuffer, cache.hasDefaultExecutor, policy.isWeighted, policy.sketch, policy.window, policy.probation, policy.protected, group.calls, G:hasExp, G:hasRefresh, G:hasWeight, G:hasSize, G:hasState, G:hasExpLinks, G:key, G:value, G:weight, call.key, call.isRefresh, call.isFake
 
 //@ func (*cache).scheduleDrainBuffers : C01 C03 C12 C20
 //@   assumed footprint of a maintenance run triggered through the executor (C14 is not applicable)
@@ -253,8 +327,6 @@ func estOf[K comparable](s *sketch[K], k K) uint64 {
 //@   ensures [C12:write-exact] c.withExpiration && pick(live(old, nowNano), ghost_ret_ExpireAfterUpdate(), ghost_ret_ExpireAfterCreate()) > 0 ==> ghost_expiresAt(n) == satadd(nowNano, int64(pick(live(old, nowNano), ghost_ret_ExpireAfterUpdate(), ghost_ret_ExpireAfterCreate())))
 //@   ensures [C12:no-hook-unconfigured] !c.withExpiration ==> ghost_calls_ExpireAfterCreate() == pre(ghost_calls_ExpireAfterCreate()) && ghost_calls_ExpireAfterUpdate() == pre(ghost_calls_ExpireAfterUpdate())
 //@   ensures [C12:write-keep] !c.withExpiration || pick(live(old, nowNano), ghost_ret_ExpireAfterUpdate(), ghost_ret_ExpireAfterCreate()) <= 0 ==> ghost_expiresAt(n) == pre(ghost_expiresAt(n))
-
-//@ macro RHOOKS = ghost_calls_RefreshAfterCreate(), ghost_ret_RefreshAfterCreate(), ghost_calls_RefreshAfterUpdate(), ghost_ret_RefreshAfterUpdate(), ghost_calls_RefreshAfterReload(), ghost_ret_RefreshAfterReload(), ghost_calls_RefreshAfterReloadFailure(), ghost_ret_RefreshAfterReloadFailure()
 
 //@ func (*cache).calcRefreshableAt : C12 C11
 //@   requires cfg(c) && nowNano >= 0 && n != nil
@@ -403,3 +475,196 @@ func estOf[K comparable](s *sketch[K], k K) uint64 {
 //@   ensures [C18:admit-greater] estOf(p.sketch, candidateKey) > estOf(p.sketch, victimKey) ==> result
 //@   ensures [C18:admit-strict] result ==> estOf(p.sketch, candidateKey) > estOf(p.sketch, victimKey) || (estOf(p.sketch, candidateKey) >= 6 && ghost_ret_rand()&127 == 0)
 //@   ensures [C18:admit-random-only-warm] result && estOf(p.sketch, candidateKey) <= estOf(p.sketch, victimKey) ==> estOf(p.sketch, candidateKey) >= 6
+
+// ---------------------------------------------------------------------------------------------
+// Table-level operations: C01 (conformance), C03 (expired ⇒ absent), C06 (atomic event exactly once,
+// truthful cause), C09 (a write clears the in-flight load), C20 (lookup counters)
+// ---------------------------------------------------------------------------------------------
+
+//@ func (*group).delete : C09 C08 C01 C03 C06
+//@   mode seq,itf
+//@   modifies ghost_calls(g.calls, key)
+//@   ensures [C09:write-clears-call] g.isInitialized.Load() ==> ghost_calls(g.calls, key) == nil
+//@   ensures [no-table-before-init] !g.isInitialized.Load() ==> ghost_calls(g.calls, key) == pre(ghost_calls(g.calls, key))
+
+//@ func (*cache).notifyAtomicDeletion : C06 C01 C03
+//@   mode seq,itf
+//@   modifies $ATOMICEV
+//@   ensures [C06:atomic-event-delivered] c.onAtomicDeletion != nil ==> ghost_calls_onAtomicDeletion() == pre(ghost_calls_onAtomicDeletion()) + 1 && same(ghost_arg_onAtomicDeletion_0[K](), key) && same(ghost_arg_onAtomicDeletion_1[V](), value) && ghost_arg_onAtomicDeletion_2() == cause
+//@   ensures [C06:no-handler-no-event] c.onAtomicDeletion == nil ==> ghost_calls_onAtomicDeletion() == pre(ghost_calls_onAtomicDeletion())
+
+//@ func (*cache).notifyDeletion : C06
+//@   modifies $ONDEL
+//@   ensures [C06:deletion-event-delivered] c.onDeletion != nil ==> ghost_calls_onDeletion() == pre(ghost_calls_onDeletion()) + 1 && same(ghost_arg_onDeletion_0[K](), key) && same(ghost_arg_onDeletion_1[V](), value) && ghost_arg_onDeletion_2() == cause
+//@   ensures [C06:no-handler-no-event] c.onDeletion == nil ==> ghost_calls_onDeletion() == pre(ghost_calls_onDeletion())
+
+//@ func (*cache).atomicSet : C01 C03 C06 C09 C12 C05
+//@   mode seq,itf
+//@   requires cfg(c) && nowNano >= 0 && c.singleflight != nil
+//@   requires [old-is-entry-of-key] old == nil || same(ghost_key(old), key)
+//@   modifies old.state, ghost_calls(c.singleflight.calls, key), $WHOOKS, $ATOMICEV, result.expiresAt, result.refreshableAt
+//@   ensures [new-node] result != nil && result != old && same(ghost_key(result), key) && same(ghost_value(result), value) && alive(result)
+//@   ensures [C09:write-clears-call] cl == nil && c.singleflight.isInitialized.Load() ==> ghost_calls(c.singleflight.calls, key) == nil
+//@   ensures [C09:install-keeps-call-table] cl != nil || !c.singleflight.isInitialized.Load() ==> ghost_calls(c.singleflight.calls, key) == pre(ghost_calls(c.singleflight.calls, key))
+//@   ensures [C06:atomic-once] old != nil && c.onAtomicDeletion != nil ==> ghost_calls_onAtomicDeletion() == pre(ghost_calls_onAtomicDeletion()) + 1 && same(ghost_arg_onAtomicDeletion_0[K](), ghost_key(old)) && same(ghost_arg_onAtomicDeletion_1[V](), ghost_value(old))
+//@   ensures [C06:cause-truthful] old != nil && c.onAtomicDeletion != nil ==> ghost_arg_onAtomicDeletion_2() == pickCause(live(old, nowNano), CauseReplacement, CauseExpiration)
+//@   ensures [C06:create-reports-nothing] old == nil || c.onAtomicDeletion == nil ==> ghost_calls_onAtomicDeletion() == pre(ghost_calls_onAtomicDeletion())
+//@   ensures [C05:old-retired] old != nil && c.withMaintenance && pre(alive(old)) ==> ghost_state(old) == 1
+//@   ensures [C05:old-state-otherwise-kept] old != nil && !(c.withMaintenance && pre(alive(old))) ==> ghost_state(old) == pre(ghost_state(old))
+//@   ensures [C12:write-deadline] c.withExpiration ==> ghost_expiresAt(result) == pickI64(pick(live(old, nowNano), ghost_ret_ExpireAfterUpdate(), ghost_ret_ExpireAfterCreate()) > 0, satadd(nowNano, int64(pick(live(old, nowNano), ghost_ret_ExpireAfterUpdate(), ghost_ret_ExpireAfterCreate()))), pickI64(old != nil, ghost_expiresAt(old), math.MaxInt64))
+//@   ensures [C12:new-deadline-in-future-or-inherited] c.withExpiration && !live(old, nowNano) && ghost_ret_ExpireAfterCreate() > 0 ==> ghost_expiresAt(result) > nowNano || ghost_expiresAt(result) == math.MaxInt64
+
+//@ func (*cache).atomicDelete : C01 C03 C06 C09 C05
+//@   mode seq,itf
+//@   requires cfg(c) && c.singleflight != nil
+//@   modifies old.state, ghost_calls(c.singleflight.calls, key), $ATOMICEV
+//@   ensures [returns-nil] result == nil
+//@   ensures [C09:write-clears-call] cl == nil && c.singleflight.isInitialized.Load() ==> ghost_calls(c.singleflight.calls, key) == nil
+//@   ensures [C09:install-keeps-call-table] cl != nil || !c.singleflight.isInitialized.Load() ==> ghost_calls(c.singleflight.calls, key) == pre(ghost_calls(c.singleflight.calls, key))
+//@   ensures [C06:atomic-once] old != nil && c.onAtomicDeletion != nil ==> ghost_calls_onAtomicDeletion() == pre(ghost_calls_onAtomicDeletion()) + 1 && same(ghost_arg_onAtomicDeletion_0[K](), ghost_key(old)) && same(ghost_arg_onAtomicDeletion_1[V](), ghost_value(old))
+//@   ensures [C06:cause-truthful] old != nil && c.onAtomicDeletion != nil ==> ghost_arg_onAtomicDeletion_2() == pickCause(live(old, nowNano), CauseInvalidation, CauseExpiration)
+//@   ensures [C06:absent-reports-nothing] old == nil || c.onAtomicDeletion == nil ==> ghost_calls_onAtomicDeletion() == pre(ghost_calls_onAtomicDeletion())
+//@   ensures [C05:old-retired] old != nil && c.withMaintenance && pre(alive(old)) ==> ghost_state(old) == 1
+//@   ensures [C05:old-state-otherwise-kept] old != nil && !(c.withMaintenance && pre(alive(old))) ==> ghost_state(old) == pre(ghost_state(old))
+
+// policy notification entry points (bodies verified in the C05/C06 block)
+//@ func (*cache).afterWrite : C01 C03 C05 C06 C09
+//@   assumed footprint only here; its task bookkeeping is verified under C05/C06
+//@   counted
+//@   modifies $MAINT, $EVLOG, $ONDEL
+
+//@ func (*cache).afterDelete : C01 C03 C05 C06 C09
+//@   assumed footprint only here; its task bookkeeping is verified under C05/C06
+//@   counted
+//@   modifies $MAINT, $EVLOG, $ONDEL
+
+//@ func (*cache).getNode : C01 C03 C20 C12
+//@   requires cfg(c) && nowNano >= 0
+//@   modifies $MAINT, $EVLOG, ghost_hits(), ghost_misses(), ghost_calls_ExpireAfterRead(), ghost_ret_ExpireAfterRead(), node::expiresAt
+//@   ensures [C03:read-live-only] result != nil ==> result == pre(ghost_tbl(c.hashmap, key)) && liveAt(result, pre(ghost_expiresAt(ghost_tbl(c.hashmap, key))), nowNano) && same(ghost_key(result), key)
+//@   ensures [C01:read-finds] liveAt(pre(ghost_tbl(c.hashmap, key)), pre(ghost_expiresAt(ghost_tbl(c.hashmap, key))), nowNano) ==> result == pre(ghost_tbl(c.hashmap, key))
+//@   ensures [C20:one-lookup] ghost_hits()+ghost_misses() == pre(ghost_hits()+ghost_misses()) + 1
+//@   ensures [C20:hit-iff-live] ghost_hits() == pre(ghost_hits()) + pickU64(result != nil, 1, 0)
+//@   ensures [C12:read-deadline] result != nil && c.withExpiration ==> ghost_expiresAt(result) == pickI64(ghost_ret_ExpireAfterRead() > 0, satadd(nowNano, int64(ghost_ret_ExpireAfterRead())), pre(ghost_expiresAt(ghost_tbl(c.hashmap, key))))
+//@   ensures [C03:miss-touches-no-deadline] result == nil && pre(ghost_tbl(c.hashmap, key)) != nil ==> ghost_expiresAt(pre(ghost_tbl(c.hashmap, key))) == pre(ghost_expiresAt(ghost_tbl(c.hashmap, key)))
+
+//@ func (*cache).GetIfPresent : C01 C03 C20
+//@   requires cfg(c)
+//@   modifies *
+//@   ensures [C03:no-value-after-deadline] r1 ==> liveAt(pre(ghost_tbl(c.hashmap, key)), pre(ghost_expiresAt(ghost_tbl(c.hashmap, key))), ghost_now()) && same(r0, ghost_value(pre(ghost_tbl(c.hashmap, key))))
+//@   ensures [C01:present-is-found] liveAt(pre(ghost_tbl(c.hashmap, key)), pre(ghost_expiresAt(ghost_tbl(c.hashmap, key))), ghost_now()) ==> r1
+//@   ensures [C01:absent-zero] !r1 ==> same(r0, zeroValue[V]())
+//@   ensures [C20:one-lookup] ghost_hits()+ghost_misses() == pre(ghost_hits()+ghost_misses()) + 1 && ghost_hits() == pre(ghost_hits()) + pickU64(r1, 1, 0)
+
+//@ func (*cache).GetEntry : C01 C03 C20
+//@   requires cfg(c)
+//@   modifies *
+//@   ensures [C03:no-entry-after-deadline] r1 ==> liveAt(pre(ghost_tbl(c.hashmap, key)), pre(ghost_expiresAt(ghost_tbl(c.hashmap, key))), ghost_now()) && same(r0.Value, ghost_value(pre(ghost_tbl(c.hashmap, key)))) && same(r0.Key, key)
+//@   ensures [C01:present-is-found] liveAt(pre(ghost_tbl(c.hashmap, key)), pre(ghost_expiresAt(ghost_tbl(c.hashmap, key))), ghost_now()) ==> r1
+//@   ensures [C12:entry-deadline-is-node-deadline] r1 && c.withExpiration ==> r0.ExpiresAtNano == ghost_expiresAt(pre(ghost_tbl(c.hashmap, key))) && r0.ExpiresAtNano > r0.SnapshotAtNano
+//@   ensures [C20:one-lookup] ghost_hits()+ghost_misses() == pre(ghost_hits()+ghost_misses()) + 1 && ghost_hits() == pre(ghost_hits()) + pickU64(r1, 1, 0)
+
+//@ func (*cache).GetEntryQuietly : C01 C03 C20
+//@   requires cfg(c)
+//@   modifies ghost_now()
+//@   ensures [C03:no-entry-after-deadline] r1 ==> live(ghost_tbl(c.hashmap, key), ghost_now()) && same(r0.Value, ghost_value(ghost_tbl(c.hashmap, key))) && same(r0.Key, key)
+//@   ensures [C01:present-is-found] live(ghost_tbl(c.hashmap, key), ghost_now()) && alive(ghost_tbl(c.hashmap, key)) ==> r1
+//@   ensures [C12:entry-deadline-is-node-deadline] r1 && c.withExpiration ==> r0.ExpiresAtNano == ghost_expiresAt(ghost_tbl(c.hashmap, key))
+//@   ensures [C20:quiet] ghost_hits() == pre(ghost_hits()) && ghost_misses() == pre(ghost_misses())
+
+//@ func (*cache).set : C01 C03 C06 C09 C20 C05
+//@   mode seq,itf
+//@   requires cfg(c) && c.singleflight != nil
+//@   modifies *
+//@   ensures [C03:expired-or-missing-reported-absent] !lp(live(ghost_tbl(c.hashmap, key), ghost_now())) ==> r1 && same(r0, value)
+//@   ensures [C01:present-reported-with-its-value] lp(live(ghost_tbl(c.hashmap, key), ghost_now())) ==> !r1 && same(r0, lp(ghost_value(ghost_tbl(c.hashmap, key))))
+//@   ensures [C01:installs-unless-present-and-only-if-absent] !onlyIfAbsent || !lp(live(ghost_tbl(c.hashmap, key), ghost_now())) ==> ghost_lpNew(c.hashmap) != nil && ghost_lpNew(c.hashmap) != ghost_lpCur(c.hashmap) && same(ghost_value(ghost_lpNew(c.hashmap)), value) && same(ghost_key(ghost_lpNew(c.hashmap)), key)
+//@   ensures [C01:set-if-absent-keeps-present] onlyIfAbsent && lp(live(ghost_tbl(c.hashmap, key), ghost_now())) ==> ghost_lpNew(c.hashmap) == ghost_lpCur(c.hashmap)
+//@   ensures [C01:one-atomic-access] ghost_lpCount(c.hashmap) == pre(ghost_lpCount(c.hashmap)) + 1 && ghost_lpCur(c.hashmap) == lp(ghost_tbl(c.hashmap, key))
+//@   ensures [C06:atomic-once] c.onAtomicDeletion != nil ==> ghost_calls_onAtomicDeletion() == pre(ghost_calls_onAtomicDeletion()) + pickInt(ghost_lpCur(c.hashmap) != nil && ghost_lpNew(c.hashmap) != ghost_lpCur(c.hashmap), 1, 0)
+//@   ensures [C06:reported-value-and-cause] c.onAtomicDeletion != nil && ghost_lpCur(c.hashmap) != nil && ghost_lpNew(c.hashmap) != ghost_lpCur(c.hashmap) ==> same(ghost_arg_onAtomicDeletion_1[V](), ghost_value(ghost_lpCur(c.hashmap))) && ghost_arg_onAtomicDeletion_2() == pickCause(lp(live(ghost_tbl(c.hashmap, key), ghost_now())), CauseReplacement, CauseExpiration)
+//@   ensures [C05:policy-told-iff-table-changed] ghost_calls_afterWrite() == pre(ghost_calls_afterWrite()) + pickInt(ghost_lpNew(c.hashmap) != ghost_lpCur(c.hashmap), 1, 0)
+//@   ensures [C05:policy-told-the-right-nodes] ghost_lpNew(c.hashmap) != ghost_lpCur(c.hashmap) ==> ghost_last_afterWrite_n[K, V]() == ghost_lpNew(c.hashmap) && ghost_last_afterWrite_old[K, V]() == ghost_lpCur(c.hashmap)
+//@   ensures [C09:write-clears-call] ghost_lpNew(c.hashmap) != ghost_lpCur(c.hashmap) && c.singleflight.isInitialized.Load() ==> lpend(ghost_calls(c.singleflight.calls, key)) == nil
+//@   ensures [C20:quiet] ghost_hits() == pre(ghost_hits()) && ghost_misses() == pre(ghost_misses())
+
+//@ func (*cache).Set : C01 C03 C06 C09
+//@   requires cfg(c) && c.singleflight != nil
+//@   modifies *
+//@   ensures [C03:expired-or-missing-reported-absent] !lp(live(ghost_tbl(c.hashmap, key), ghost_now())) ==> r1 && same(r0, value)
+//@   ensures [C01:replaced-value-returned] lp(live(ghost_tbl(c.hashmap, key), ghost_now())) ==> !r1 && same(r0, lp(ghost_value(ghost_tbl(c.hashmap, key))))
+//@   ensures [C01:installs] ghost_lpNew(c.hashmap) != nil && same(ghost_value(ghost_lpNew(c.hashmap)), value)
+
+//@ func (*cache).SetIfAbsent : C01 C03 C06 C09
+//@   requires cfg(c) && c.singleflight != nil
+//@   modifies *
+//@   ensures [C03:expired-or-missing-reported-absent] !lp(live(ghost_tbl(c.hashmap, key), ghost_now())) ==> r1 && same(r0, value) && ghost_lpNew(c.hashmap) != nil && same(ghost_value(ghost_lpNew(c.hashmap)), value)
+//@   ensures [C01:present-kept] lp(live(ghost_tbl(c.hashmap, key), ghost_now())) ==> !r1 && same(r0, lp(ghost_value(ghost_tbl(c.hashmap, key)))) && ghost_lpNew(c.hashmap) == ghost_lpCur(c.hashmap)
+
+//@ func (*cache).Invalidate : C01 C03 C06 C09 C20 C05
+//@   mode seq,itf
+//@   requires cfg(c) && c.singleflight != nil
+//@   modifies *
+//@   ensures [C03:expired-or-missing-reported-absent] !lp(live(ghost_tbl(c.hashmap, key), ghost_now())) ==> !invalidated && same(value, zeroValue[V]())
+//@   ensures [C01:present-reported-with-its-value] lp(live(ghost_tbl(c.hashmap, key), ghost_now())) ==> invalidated && same(value, lp(ghost_value(ghost_tbl(c.hashmap, key))))
+//@   ensures [C01:removes] ghost_lpNew(c.hashmap) == nil && ghost_lpCount(c.hashmap) == pre(ghost_lpCount(c.hashmap)) + 1
+//@   ensures [C06:atomic-once] c.onAtomicDeletion != nil ==> ghost_calls_onAtomicDeletion() == pre(ghost_calls_onAtomicDeletion()) + pickInt(ghost_lpCur(c.hashmap) != nil, 1, 0)
+//@   ensures [C06:reported-value-and-cause] c.onAtomicDeletion != nil && ghost_lpCur(c.hashmap) != nil ==> same(ghost_arg_onAtomicDeletion_1[V](), ghost_value(ghost_lpCur(c.hashmap))) && ghost_arg_onAtomicDeletion_2() == pickCause(lp(live(ghost_tbl(c.hashmap, key), ghost_now())), CauseInvalidation, CauseExpiration)
+//@   ensures [C05:policy-told-iff-removed] ghost_calls_afterDelete() == pre(ghost_calls_afterDelete()) + 1 && ghost_last_afterDelete_deleted[K, V]() == ghost_lpCur(c.hashmap)
+//@   ensures [C09:write-clears-call] c.singleflight.isInitialized.Load() ==> lpend(ghost_calls(c.singleflight.calls, key)) == nil
+//@   ensures [C20:quiet] ghost_hits() == pre(ghost_hits()) && ghost_misses() == pre(ghost_misses())
+
+//@ func (*cache).deleteNodeFromMap : C01 C03 C06 C09 C05 C07
+//@   mode seq,itf
+//@   requires cfg(c) && c.singleflight != nil && n != nil
+//@   modifies ghost_tbl(c.hashmap, ghost_key(n)), n.state, ghost_calls(c.singleflight.calls, ghost_key(n)), $ATOMICEV
+//@   ensures [C06:removes-only-the-given-node] result == pickNode(ghost_lpCur(c.hashmap) == n, n, nil) && ghost_lpNew(c.hashmap) == pickNode(ghost_lpCur(c.hashmap) == n, nil, ghost_lpCur(c.hashmap))
+//@   ensures [C06:atomic-once] c.onAtomicDeletion != nil ==> ghost_calls_onAtomicDeletion() == pre(ghost_calls_onAtomicDeletion()) + pickInt(result != nil, 1, 0)
+//@   ensures [C06:reported-value-and-cause] c.onAtomicDeletion != nil && result != nil ==> same(ghost_arg_onAtomicDeletion_1[V](), ghost_value(n)) && ghost_arg_onAtomicDeletion_2() == pickCause(lp(live(n, nowNano)), cause, CauseExpiration)
+//@   ensures [C09:eviction-clears-call] c.singleflight.isInitialized.Load() ==> lpend(ghost_calls(c.singleflight.calls, ghost_key(n))) == nil
+//@   ensures [C05:removed-node-retired] result != nil && c.withMaintenance && lp(alive(n)) ==> lpend(ghost_state(n)) == 1
+
+//@ func (*cache).doCompute : C01 C03 C06 C09 C20 C05
+//@   mode seq,itf
+//@   panics
+//@   inline verified on its own and inlined into Compute / ComputeIfAbsent / ComputeIfPresent (their wrapper closures are executed concretely)
+//@   requires cfg(c) && c.singleflight != nil && nowNano >= 0
+//@   modifies *
+//@   ensures [C03:callback-sees-expired-as-absent] ghost_calls_remappingFunc() == pre(ghost_calls_remappingFunc()) + 1 && ghost_arg_remappingFunc_1() == lp(live(ghost_tbl(c.hashmap, key), nowNano)) && same(ghost_arg_remappingFunc_0[V](), lp(pickV(live(ghost_tbl(c.hashmap, key), nowNano), ghost_value(ghost_tbl(c.hashmap, key)), zeroValue[V]())))
+//@   ensures [C01:cancel-keeps-live-drops-expired] ghost_ret_remappingFunc_1() == CancelOp ==> ghost_lpNew(c.hashmap) == pickNode(lp(live(ghost_tbl(c.hashmap, key), nowNano)), ghost_lpCur(c.hashmap), nil)
+//@   ensures [C01:write-installs] ghost_ret_remappingFunc_1() == WriteOp ==> ghost_lpNew(c.hashmap) != nil && ghost_lpNew(c.hashmap) != ghost_lpCur(c.hashmap) && same(ghost_value(ghost_lpNew(c.hashmap)), ghost_ret_remappingFunc_0[V]()) && same(ghost_key(ghost_lpNew(c.hashmap)), key)
+//@   ensures [C01:invalidate-removes] ghost_ret_remappingFunc_1() == InvalidateOp ==> ghost_lpNew(c.hashmap) == nil
+//@   ensures [C01:result-is-table-content] r1 == (ghost_lpNew(c.hashmap) != nil) && (r1 ==> same(r0, ghost_value(ghost_lpNew(c.hashmap)))) && (!r1 ==> same(r0, zeroValue[V]()))
+//@   ensures [C01:one-atomic-access] ghost_lpCount(c.hashmap) == pre(ghost_lpCount(c.hashmap)) + 1 && ghost_lpCur(c.hashmap) == lp(ghost_tbl(c.hashmap, key))
+//@   ensures [C06:atomic-once] c.onAtomicDeletion != nil ==> ghost_calls_onAtomicDeletion() == pre(ghost_calls_onAtomicDeletion()) + pickInt(ghost_lpCur(c.hashmap) != nil && ghost_lpNew(c.hashmap) != ghost_lpCur(c.hashmap), 1, 0)
+//@   ensures [C06:reported-value-and-cause] c.onAtomicDeletion != nil && ghost_lpCur(c.hashmap) != nil && ghost_lpNew(c.hashmap) != ghost_lpCur(c.hashmap) ==> same(ghost_arg_onAtomicDeletion_1[V](), ghost_value(ghost_lpCur(c.hashmap))) && ghost_arg_onAtomicDeletion_2() == pickCause(lp(live(ghost_tbl(c.hashmap, key), nowNano)), pickCause(ghost_ret_remappingFunc_1() == WriteOp, CauseReplacement, CauseInvalidation), CauseExpiration)
+//@   ensures [C05:write-tells-policy] ghost_calls_afterWrite() == pre(ghost_calls_afterWrite()) + pickInt(ghost_ret_remappingFunc_1() == WriteOp, 1, 0) && (ghost_ret_remappingFunc_1() == WriteOp ==> ghost_last_afterWrite_n[K, V]() == ghost_lpNew(c.hashmap) && ghost_last_afterWrite_old[K, V]() == ghost_lpCur(c.hashmap))
+//@   ensures [C05:removal-tells-policy] ghost_ret_remappingFunc_1() != WriteOp && ghost_lpCur(c.hashmap) != nil && ghost_lpNew(c.hashmap) == nil ==> ghost_calls_afterDelete() == pre(ghost_calls_afterDelete()) + 1 && ghost_last_afterDelete_deleted[K, V]() == ghost_lpCur(c.hashmap)
+//@   ensures [C05:no-removal-no-delete-task] ghost_ret_remappingFunc_1() != WriteOp && ghost_lpNew(c.hashmap) == ghost_lpCur(c.hashmap) && ghost_lpCur(c.hashmap) != nil ==> ghost_calls_afterDelete() == pre(ghost_calls_afterDelete())
+//@   ensures [C09:write-clears-call] ghost_lpNew(c.hashmap) != ghost_lpCur(c.hashmap) && c.singleflight.isInitialized.Load() ==> lpend(ghost_calls(c.singleflight.calls, key)) == nil
+//@   ensures [C20:one-lookup-when-counting] recordStats ==> ghost_hits()+ghost_misses() == pre(ghost_hits()+ghost_misses()) + 1 && ghost_hits() == pre(ghost_hits()) + pickU64(lp(live(ghost_tbl(c.hashmap, key), nowNano)), 1, 0)
+//@   ensures [C20:quiet-otherwise] !recordStats ==> ghost_hits() == pre(ghost_hits()) && ghost_misses() == pre(ghost_misses())
+
+//@ func (*cache).Compute : C01 C03 C06 C09 C20
+//@   panics
+//@   requires cfg(c) && c.singleflight != nil
+//@   modifies *
+//@   ensures [C03:callback-sees-expired-as-absent] ghost_calls_remappingFunc() == pre(ghost_calls_remappingFunc()) + 1 && ghost_arg_remappingFunc_1() == lp(live(ghost_tbl(c.hashmap, key), ghost_now()))
+//@   ensures [C01:result-is-table-content] r1 == (ghost_lpNew(c.hashmap) != nil) && (r1 ==> same(r0, ghost_value(ghost_lpNew(c.hashmap)))) && (!r1 ==> same(r0, zeroValue[V]()))
+//@   ensures [C20:one-lookup] ghost_hits()+ghost_misses() == pre(ghost_hits()+ghost_misses()) + 1 && ghost_hits() == pre(ghost_hits()) + pickU64(lp(live(ghost_tbl(c.hashmap, key), ghost_now())), 1, 0)
+
+//@ func (*cache).ComputeIfAbsent : C01 C03 C20
+//@   panics
+//@   requires cfg(c) && c.singleflight != nil
+//@   modifies *
+//@   ensures [C03:present-returns-without-computing] liveAt(pre(ghost_tbl(c.hashmap, key)), pre(ghost_expiresAt(ghost_tbl(c.hashmap, key))), ghost_now()) ==> r1 && same(r0, ghost_value(pre(ghost_tbl(c.hashmap, key)))) && ghost_calls_mappingFunc() == pre(ghost_calls_mappingFunc())
+//@   ensures [C03:expired-or-missing-computes-at-most-once] !liveAt(pre(ghost_tbl(c.hashmap, key)), pre(ghost_expiresAt(ghost_tbl(c.hashmap, key))), ghost_now()) ==> ghost_calls_mappingFunc() == pre(ghost_calls_mappingFunc()) || ghost_calls_mappingFunc() == pre(ghost_calls_mappingFunc())+1
+//@   ensures [C01:result-is-table-content] !liveAt(pre(ghost_tbl(c.hashmap, key)), pre(ghost_expiresAt(ghost_tbl(c.hashmap, key))), ghost_now()) ==> r1 == (ghost_lpNew(c.hashmap) != nil)
+//@   ensures [C20:one-lookup] ghost_hits()+ghost_misses() == pre(ghost_hits()+ghost_misses()) + 1
+
+//@ func (*cache).ComputeIfPresent : C01 C03 C20
+//@   panics
+//@   requires cfg(c) && c.singleflight != nil
+//@   modifies *
+//@   ensures [C03:expired-or-missing-is-absent] !liveAt(pre(ghost_tbl(c.hashmap, key)), pre(ghost_expiresAt(ghost_tbl(c.hashmap, key))), ghost_now()) ==> !r1 && same(r0, zeroValue[V]()) && ghost_calls_remappingFunc() == pre(ghost_calls_remappingFunc())
+//@   ensures [C20:one-lookup] ghost_hits()+ghost_misses() == pre(ghost_hits()+ghost_misses()) + 1
